@@ -27,14 +27,18 @@ impl<'a, const N: usize> MConcat for [&'a [u8]; N] { fn mconcat(&self) -> ByteVe
 pub enum Slot { Script(usize), Matched(u64), Min }
 pub fn decode(k: &[u8]) -> Slot {
     if k.len() == 4 && k[0] == 0xE1 && k[1] >= 1 && (k[1] as usize) <= NS && k[2] == 7 && k[3] <= 1 { return Slot::Script((k[1] as usize - 1) * 2 + k[3] as usize); }
-    if k.len() == 9 && k[0] == 0xE5 { let mut a = [0u8; 8]; let mut i = 0; while i < 8 { a[i] = k[1 + i]; i += 1; } return Slot::Matched(u64::from_be_bytes(a)); }
+    if k.len() == 9 && k[0] == 0xE5 { let a: [u8; 8] = [k[1], k[2], k[3], k[4], k[5], k[6], k[7], k[8]]; return Slot::Matched(u64::from_be_bytes(a)); }
     if k.len() == 1 && k[0] == 0xE7 { return Slot::Min; }
     panic!("MODEL-BOUND: key shape outside the decoded Meta store")
 }
 #[derive(Clone, Copy)] pub struct MVal { pub v: [u8; VCAP], pub len: usize }
 impl AsRef<[u8]> for MVal { fn as_ref(&self) -> &[u8] { &self.v[..self.len] } }
 impl std::ops::Deref for MVal { type Target = [u8]; fn deref(&self) -> &[u8] { &self.v[..self.len] } }
-fn mval(v: &[u8]) -> MVal { assert!(v.len() <= VCAP, "MODEL-BOUND: value capacity"); let mut a = [0u8; VCAP]; let mut i = 0; while i < v.len() { a[i] = v[i]; i += 1; } MVal { v: a, len: v.len() } }
+fn mval(v: &[u8]) -> MVal {
+    assert!(v.len() <= VCAP, "MODEL-BOUND: value capacity");
+    if v.len() == 8 && VCAP == 8 { let mut a = [0u8; VCAP]; a[0] = v[0]; a[1] = v[1]; a[2] = v[2]; a[3] = v[3]; a[4] = v[4]; a[5] = v[5]; a[6] = v[6]; a[7] = v[7]; return MVal { v: a, len: 8 }; }
+    let mut a = [0u8; VCAP]; let mut i = 0; while i < v.len() { a[i] = v[i]; i += 1; } MVal { v: a, len: v.len() }
+}
 pub struct Db { pub scripts: [Option<MVal>; NS * 2], pub matched: [(u64, MVal); MREC], pub nmatched: usize, pub min: Option<MVal>, pub writes: usize, pub crash_after: usize }
 const MV0: MVal = MVal { v: [0; VCAP], len: 0 };
 pub static mut DB: Db = Db { scripts: [None; NS * 2], matched: [(0, MV0); MREC], nmatched: 0, min: None, writes: 0, crash_after: usize::MAX };
@@ -69,14 +73,14 @@ impl Db {
     pub fn admit(&mut self) -> bool { let ok = self.writes < self.crash_after; self.writes += 1; ok }
     /// entry number `idx` in BYTE ORDER of the keys: scripts (by id, then type), matched records (by start), min
     fn nth(&self, idx: usize) -> Option<(ByteVec, MVal)> {
-        if idx < NS * 2 { return self.scripts[idx].map(|v| { let mut k = ByteVec::new(); k.push(0xE1); k.push((idx / 2) as u8 + 1); k.push(7); k.push((idx % 2) as u8); (k, v) }); }
+        if idx < NS * 2 { return self.scripts[idx].map(|v| { let mut b = [0u8; KCAP]; b[0] = 0xE1; b[1] = (idx / 2) as u8 + 1; b[2] = 7; b[3] = (idx % 2) as u8; (ByteVec { buf: b, len: 4 }, v) }); }
         let j = idx - NS * 2;
-        if j < MREC { if j < self.nmatched { let mut k = ByteVec::new(); k.push(0xE5); k.extend_from_slice(&self.matched[j].0.to_be_bytes()); return Some((k, self.matched[j].1)); } return None; }
-        if j == MREC { return self.min.map(|v| { let mut k = ByteVec::new(); k.push(0xE7); (k, v) }); }
+        if j < MREC { if j < self.nmatched { let x = self.matched[j].0.to_be_bytes(); let mut b = [0u8; KCAP]; b[0] = 0xE5; b[1] = x[0]; b[2] = x[1]; b[3] = x[2]; b[4] = x[3]; b[5] = x[4]; b[6] = x[5]; b[7] = x[6]; b[8] = x[7]; return Some((ByteVec { buf: b, len: 9 }, self.matched[j].1)); } return None; }
+        if j == MREC { return self.min.map(|v| { let mut b = [0u8; KCAP]; b[0] = 0xE7; (ByteVec { buf: b, len: 1 }, v) }); }
         None
     }
 }
-fn key_lt(a: &[u8], b: &[u8]) -> bool { let mut i = 0; while i < a.len() && i < b.len() { if a[i] != b[i] { return a[i] < b[i]; } i += 1; } a.len() < b.len() }
+fn key_lt(a: &ByteVec, b: &ByteVec) -> bool { let (x, y) = (u128::from_be_bytes(a.buf), u128::from_be_bytes(b.buf)); x < y || (x == y && a.len < b.len) }   // buffers are zero padded
 pub enum Direction { Forward, Reverse }
 pub enum IteratorMode<'a> { From(&'a [u8], Direction) }
 pub struct DbIter { pos: usize, from: ByteVec, rev: bool }
@@ -112,5 +116,5 @@ impl Batch {
     /// atomic: all operations or none
     pub fn commit(self) -> Result<(), ()> { unsafe { if DB.admit() { let mut i = 0; while i < self.n { let o = self.ops[i]; if o.put { DB.put_raw(&o.k, &o.v); } else { DB.del_raw(&o.k); } i += 1; } } } Ok(()) }
 }
-pub fn u64_be(v: Option<MVal>) -> Option<u64> { v.map(|m| { let mut a = [0u8; 8]; let mut i = 0; while i < 8 { a[i] = m.v[i]; i += 1; } u64::from_be_bytes(a) }) }
-pub fn u64_le(v: Option<MVal>) -> Option<u64> { v.map(|m| { let mut a = [0u8; 8]; let mut i = 0; while i < 8 { a[i] = m.v[i]; i += 1; } u64::from_le_bytes(a) }) }
+pub fn u64_be(v: Option<MVal>) -> Option<u64> { v.map(|m| u64::from_be_bytes([m.v[0], m.v[1], m.v[2], m.v[3], m.v[4], m.v[5], m.v[6], m.v[7]])) }
+pub fn u64_le(v: Option<MVal>) -> Option<u64> { v.map(|m| u64::from_le_bytes([m.v[0], m.v[1], m.v[2], m.v[3], m.v[4], m.v[5], m.v[6], m.v[7]])) }
